@@ -150,4 +150,27 @@ theorem multirank_verdict (nprocs : Nat) (hn : 1 ≤ nprocs) (shape : List Nat) 
     obtain ⟨r, hr, hb⟩ := every_element_compared nprocs hn shape idx hs
     exact ⟨r, hr, idx, hb, hd⟩
 
+/-! ### ncoffsets -r -/
+open PnVerif.Spec PnVerif.Header
+
+theorem offsetsRecs_get (v : Var) (sh : List Nat) (recsize numrecs r : Nat) (hr : r < numrecs) :
+    (offsetsRecs v sh recsize numrecs)[r]? =
+      some (v.begin + recsize * r, v.begin + dsizes0 sh * v.xtype.size + recsize * r) := by
+  unfold offsetsRecs
+  simp [hr]
+
+theorem offsetsRecs_length (v : Var) (sh : List Nat) (recsize numrecs : Nat) :
+    (offsetsRecs v sh recsize numrecs).length = numrecs := by
+  simp [offsetsRecs]
+
+/-- the packing rule of compute_var_shape / ncmpii_NC_computeshapes: when the record lengths add up to the length of
+    the first record variable (exactly one record variable), recsize is its UNPADDED size, else the sum -/
+theorem cvsRec_packing (st : CvsState) (fb flen fpacked : Nat) (hf : st.firstRec = some (fb, flen, fpacked))
+    (hb : st.beginRec ≤ fb) : cvsRec st = .ok (fb, if st.recsize = flen then fpacked else st.recsize) := by
+  unfold cvsRec
+  rw [hf]
+  simp only []
+  have : ¬ st.beginRec > fb := by omega
+  rw [if_neg this]
+
 end PnVerif.Tools
